@@ -1,6 +1,7 @@
 package checks
 
 import (
+	"bytes"
 	"fmt"
 	"sync"
 	"testing"
@@ -29,7 +30,8 @@ type XCase struct {
 	TailAlg  int         `json:"tailalg,omitempty"` // 0: five tail modes; 1: adds cuts at an arbitrary byte or at page / journal-block boundaries, followed by zeros up to the old length
 	Nested   []int       `json:"nested,omitempty"`
 	After    []dbm.Op    `json:"after,omitempty"`
-	All      bool        `json:"all,omitempty"` // thorough: enumerate every crash instant of this history
+	All      bool        `json:"all,omitempty"`      // thorough: enumerate every crash instant of this history
+	BurstMix bool        `json:"burstmix,omitempty"` // every other writer of a burst uses DB.Write with a two-record batch (else all use Put)
 }
 
 func tailMode(seed uint64, alg int) vfs.TailMode {
@@ -205,7 +207,7 @@ func (c *XCase) runHistory(fs *vfs.FS, o *opt.Options, st *xStats) (issued []*mo
 				v.Raw = false
 				val := v.Bytes(tag(j))
 				b.Ops = []model.BOp{{K: string(k), V: string(val)}}
-				if j%2 == 1 {
+				if c.BurstMix && j%2 == 1 {
 					// every other writer goes through DB.Write with a two-record batch
 					b.Ops = append(b.Ops, model.BOp{K: string(k) + "'", V: string(val)})
 				}
@@ -215,7 +217,7 @@ func (c *XCase) runHistory(fs *vfs.FS, o *opt.Options, st *xStats) (issued []*mo
 				go func(j int, k, val []byte, sync bool) {
 					defer wg.Done()
 					started <- struct{}{}
-					if j%2 == 1 {
+					if c.BurstMix && j%2 == 1 {
 						lb := new(leveldb.Batch)
 						lb.Put(k, val)
 						lb.Put(append(append([]byte{}, k...), '\''), val)
@@ -465,6 +467,19 @@ func drawXCase(t *rapid.T) *XCase {
 		return op
 	})
 	span := rapid.SampledFrom([]int{5, 20, 40, 80}).Draw(t, "minops")
+	// long-manifest shape: keys of about 1 KiB and a tiny write buffer, so that every flush
+	// appends a 2 KiB edit and the manifest soon has records straddling 32 KiB block boundaries
+	// (such a record reaches the storage in two writes)
+	if !longj && rapid.IntRange(0, 7).Draw(t, "longmanifest") == 0 {
+		for i := range c.Keys {
+			c.Keys[i] = gen.Hex(append(bytes.Repeat([]byte{'p'}, 1000+i), c.Keys[i]...))
+		}
+		c.Opts.WriteBuffer = 512
+		c.Opts.MaxManifestSize = 0
+		if span < 40 {
+			span = 40
+		}
+	}
 	c.Ops = rapid.SliceOfN(og, span, 140).Draw(t, "ops")
 	// creating the DB takes four storage operations; instants before that are outside the
 	// property's domain (there is no DB to open again), so most draws start after them
@@ -475,6 +490,7 @@ func drawXCase(t *rapid.T) *XCase {
 	}
 	c.TailSeed = rapid.Uint64().Draw(t, "tail")
 	c.TailAlg = rapid.SampledFrom([]int{0, 1, 1}).Draw(t, "tailalg")
+	c.BurstMix = rapid.SampledFrom([]bool{false, true, true}).Draw(t, "burstmix")
 	if rapid.IntRange(0, 3).Draw(t, "nest") == 0 {
 		c.Nested = rapid.SliceOfN(rapid.IntRange(1, 14), 1, 2).Draw(t, "nested")
 	}
@@ -504,6 +520,9 @@ func xClassify(c *XCase, st xStats) (bool, []string) {
 	if c.Opts.WriteBuffer >= 1<<17 {
 		cl = append(cl, "long-journal-shape")
 	}
+	if len(c.Keys) > 0 && len(c.Keys[0]) >= 1000 && c.Opts.WriteBuffer == 512 {
+		cl = append(cl, "long-manifest-shape")
+	}
 	if st.nested > 0 {
 		cl = append(cl, "nested-crash-in-recovery")
 	}
@@ -524,8 +543,23 @@ func TestC04(t *testing.T) {
 			t.Fatal(err)
 		}
 		for i := 0; i < envInt("VERIF_REPLAY_RUNS", 10); i++ {
-			if _, err := runCrashOnce(c, c.CrashAt); err != nil {
-				t.Fatalf("replay failed: %v", err)
+			instants := []int{c.CrashAt}
+			if c.All {
+				// every instant of the history (schedule-dependent cases: the numbering of the
+				// storage operations varies between runs)
+				probe, err := runCrashOnce(c, 1<<30)
+				if err != nil {
+					t.Fatalf("replay failed: %v", err)
+				}
+				instants = instants[:0]
+				for at := 1; at <= probe.storageOps+1; at++ {
+					instants = append(instants, at)
+				}
+			}
+			for _, at := range instants {
+				if _, err := runCrashOnce(c, at); err != nil {
+					t.Fatalf("replay failed (instant %d): %v", at, err)
+				}
 			}
 		}
 		return
